@@ -2,7 +2,8 @@
 # tools/run_seeded.sh [Cxx ...] : runs the claimed checks against every seeded change under
 # /verif/seeded (each applied to a scratch copy of /repo's working tree, removed afterwards) and
 # prints which check detects which change. Scratch copies live under $TMPDIR, outside /repo,/verif.
-# Seeds are processed in parallel (JOBS, default 6).
+# Seeds are processed in parallel (JOBS, default 6). OWN=1 runs only the owning property's check
+# on each change and writes seeded/RESULTS_own.tsv (all 138 changes incl. round 4, ~10 min).
 set -uo pipefail
 here="$(cd "$(dirname "$0")/.." && pwd)"
 export here
@@ -18,7 +19,8 @@ one() {
   (cd /repo && tar --exclude=.git -cf - .) | (cd "$tmp" && tar xf -)
   if ! (cd "$tmp" && patch -p1 -s < "$d/patch.diff" >/dev/null 2>&1); then echo -e "$name\t$prop\tPATCH-FAILED\t"; rm -rf "$tmp"; return; fi
   hits=""
-  for c in $claimed; do
+  cs="$claimed"; [ -n "${OWN:-}" ] && cs="$prop"   # OWN=1: only the owning property's check
+  for c in $cs; do
     o=$("$here/bin/verifcheck" "$c" --tier quick --repo "$tmp" --verif "$here" --no-write 2>&1); code=$?
     if [ $code -eq 1 ]; then
       keys=$(echo "$o" | grep -E '^  FAIL ' | sed -E 's/^  FAIL ([^ ]+).*/\1/' | sort -u | head -3 | tr '\n' ',')
@@ -39,5 +41,6 @@ for d in "$here"/seeded/C*/; do
   list+=("$d")
 done
 printf '%s\n' "${list[@]}" | xargs -P "${JOBS:-6}" -I{} bash -c 'one "$@"' _ {} | tee -a "$tmpres"
-if [ -z "$filter" ]; then sort "$tmpres" > "$out"; fi
+if [ -z "$filter" ] && [ -z "${OWN:-}" ]; then sort "$tmpres" > "$out"; fi
+if [ -z "$filter" ] && [ -n "${OWN:-}" ]; then sort "$tmpres" > "$here/seeded/RESULTS_own.tsv"; fi
 rm -f "$tmpres"
